@@ -5,7 +5,7 @@
    chain.  That dereferencing reads and writes exactly the target is the definition of resolve for the
    '^' resolver (it returns the target's own cell id) and is compared with the implementation, normal and
    sanitizer build, on every activation pattern the generators produce. *)
-From PE2 Require Import Values Lemmas_HeapIds.
+From PE2 Require Import Eval Lemmas_HeapIds Lemmas_Out.
 Local Open Scope Z_scope.
 
 Theorem C09_ctx_ids_fresh : forall parent name isfun isrec rett s id s',
@@ -23,3 +23,11 @@ Theorem C09_unset_pointer_is_on_no_chain : forall c s cx, nm_get c (s_ctxs s) = 
   on_chain c 0%N s = (Ok false, s).
 Proof. exact on_chain_unset_root. Qed.
 Print Assumptions C09_unset_pointer_is_on_no_chain.
+
+(* over the whole evaluator: whatever a block does (calls, returns, errors, fuel exhaustion), the allocation
+   counter never goes back, so an identifier handed out once (a returned activation, a freed cell) is never
+   handed out again: a dead pointer can never come to denote a newer object *)
+Theorem C09_ids_never_reused : forall ped repl lim fuel bl c s,
+  (s_next s <= s_next (snd (run_block ped repl lim fuel bl c s)))%N.
+Proof. exact run_block_ids_only_grow. Qed.
+Print Assumptions C09_ids_never_reused.
